@@ -80,10 +80,10 @@ def fwd_worker(task):
         calls = [e[1] for e in p["trace"] if e[0] == "CALL"]
         if raws:
             fam_ = h.family
-            if fam_ == "scalar" and h.impl.name in ("update_attr", "transform_attr") and \
+            if fam_ == "scalar" and h.impl_name in ("update_attr", "transform_attr") and \
                     not any("with_attr" in c or "prepare_attr_value" in c for c in calls):
                 bad.append("reaches the raw write without going through with_attr / prepare_attr_value (the value is stored unprepared)")
-            if h.impl.name in ("reset_attr", "reset") and not any("__delattr__" in c for c in calls):
+            if h.impl_name in ("reset_attr", "reset") and not any("__delattr__" in c for c in calls):
                 bad.append("reaches the raw write/delete without going through the __delattr__ closure")
     r["bad"] = sorted(set(bad))
     r["task4"] = task
@@ -285,7 +285,9 @@ def _check_main(ctx, rep: Report):
     # e.g. invalidation), exactly like a chain of single transform_<a> calls
     rep.rules["C05.PIPE"] = "mutate_value: transform(k) is evaluated after the assignment of transform(k-1) (interleaved, not batched)"
     fi = ctx.p.find_function("mutate_value")
-    loops = [n for n in walk_own(fi.node) if isinstance(n, ast.For) and "attr_transforms" in ast.unparse(n.iter)]
+    from .base import with_callees
+    pipe_fns = [g for g in with_callees(ctx.p, fi, 1) if g is fi or (g.module is fi.module and g.node.name.startswith("_"))]
+    loops = [n for g in pipe_fns for n in walk_own(g.node) if isinstance(n, ast.For) and ("attr_transforms" in ast.unparse(n.iter) or "transform" in ast.unparse(n.target))]
     bad = []
     if not loops:
         bad.append("no loop over attr_transforms")
@@ -295,13 +297,14 @@ def _check_main(ctx, rep: Report):
         tcalls = [n for n in ast.walk(loops[-1]) if isinstance(n, ast.Call) and isinstance(n.func, ast.Name) and "transform" in n.func.id]
         if not calls or not tcalls:
             bad.append("the transform and its assignment are no longer in the same loop iteration (all transforms are evaluated against the pre-call state)")
-        others = [n for n in walk_own(fi.node) if isinstance(n, (ast.DictComp, ast.ListComp)) and "attr_transforms" in ast.unparse(n)]
+        others = [n for g in pipe_fns for n in walk_own(g.node) if isinstance(n, (ast.DictComp, ast.ListComp)) and "attr_transforms" in ast.unparse(n)]
         if others:
             bad.append("attribute transforms are evaluated in a batch before any assignment")
     rep.oblige("C05.PIPE", "mutate_value attr_transforms loop", not bad, "; ".join(bad))
     for b in bad:
         rep.violate(Violation("C05.PIPE", f"C05.PIPE|{b[:50]}", f"mutate_value: {b}: transform(a=f, b=g) differs from transform_a(f).transform_b(g) when b depends on a", f"{fi.module.relpath}:{fi.node.lineno}", "mutate_value"))
-    loops = [n for n in walk_own(fi.node) if isinstance(n, ast.For) and ast.unparse(n.iter).startswith("attrs.items")]
+    loops = [n for g in pipe_fns for n in walk_own(g.node) if isinstance(n, ast.For) and ast.unparse(n.iter).endswith(".items()") and "transform" not in ast.unparse(n)
+             and any(isinstance(x, ast.Call) and ast.unparse(x.func) == "setattr" for x in ast.walk(n))]
     ok = bool(loops) and any(isinstance(n, ast.Call) and ast.unparse(n.func) == "setattr" for n in ast.walk(loops[0]))
     rep.oblige("C05.PIPE", "mutate_value attrs loop", ok)
     if not ok:
